@@ -48,6 +48,8 @@ func Quiet() {
 
 var orderChecked bool
 
+var debugTx = os.Getenv("VERIF_DEBUG") != ""
+
 // CheckAppOrder re-extracts the begin/end blocker order of the lava modules from app/app.go and
 // compares it with the order hard-wired in NextBlock. A mismatch is a harness error.
 func CheckAppOrder() error {
@@ -207,6 +209,9 @@ func (w *World) Tx(f func() error) TxResult {
 		res.Err = fmt.Errorf("harness: require failed inside tx (Goexit)")
 	}
 	w.setCtx(saved)
+	if debugTx && !res.OK() {
+		fmt.Fprintf(os.Stderr, "[tx failed] err=%v panic=%s\n", res.Err, res.Panic)
+	}
 	if res.OK() {
 		write()
 		res.Events = em.Events()
